@@ -92,6 +92,10 @@ class Path:
             r2 = _guarded(lambda: self.solver.check(t), 5.0)
             if r2 == z3.unsat:
                 r = r2
+            if os.environ.get("PYVC_TRACE_DECIDE"):
+                print("FEASIBLE light/full", r, r2, flush=True)
+        elif os.environ.get("PYVC_TRACE_DECIDE"):
+            print("FEASIBLE light", r, flush=True)
         self.solver_time += time.time() - t0
         return r != z3.unsat
 
@@ -826,6 +830,14 @@ def _decide(t):
         return p.decided[tidx]
     can_t = p.feasible(t)
     can_f = p.feasible(z3.Not(t))
+    if os.environ.get("PYVC_DUMP_ONESIDED") and not can_t and "np_count" in str(t)[:40]:
+        with open(os.path.join(os.environ["PYVC_DUMP_ONESIDED"], "onesided_%d.smt2" % len(p.trace)), "w") as fh:
+            fh.write(_to_smt2(p.pc + [t]))
+    if os.environ.get("PYVC_TRACE_STACK") and (not can_t or not can_f):
+        import traceback
+
+        fr = [f for f in traceback.extract_stack(limit=30) if "/osyris/" in f.filename or "/contracts/" in f.filename]
+        print("ONE-SIDED", can_t, can_f, [(os.path.basename(f.filename), f.lineno) for f in fr][-4:], str(simp(t))[:200].replace("\n", " "), flush=True)
     if not can_t and not can_f:
         raise Infeasible()
     if can_t and can_f:
@@ -875,9 +887,24 @@ def prove(name, cond, detail=None, effort="full"):
     if z3.is_true(ts):
         ob.status, ob.backend = "discharged", "simplifier"
     elif z3.is_false(ts):
-        # the clause is false outright on this (feasible) path: no solver needed to refute it
-        ob.status, ob.backend = "refuted", "simplifier"
-        ob.model = {"note": "clause is literally false on the path with decisions %s" % (p.trace[-12:],)}
+        # the clause is false outright on this path: a refutation only if the path itself is feasible (branches are
+        # kept when their feasibility is undecided, and on an infeasible path anything may be observed)
+        r = p.check()
+        if r == z3.sat:
+            ob.status, ob.backend = "refuted", "simplifier+z3"
+            ob.model = _model_dict(p, p.solver.model())
+            ob.model["note"] = "clause is literally false on the path with decisions %s" % (p.trace[-12:],)
+        elif r == z3.unsat:
+            ob.status, ob.backend = "discharged", "z3 (path infeasible)"
+        else:
+            # a fresh solver process on the path condition alone (the incremental in-process state is the usual reason
+            # for `unknown` here)
+            r2 = _try_other_backends(_to_smt2(list(p.pc)))
+            if r2 is not None:
+                ob.status, ob.backend = "discharged", r2[1] + " (path infeasible)"
+            else:
+                ob.status, ob.backend = "unknown", "z3"
+                ob.note = "clause is literally false but the feasibility of the path is undecided"
     else:
         try:
             r = _sliced_unsat(p, t)
@@ -1410,6 +1437,7 @@ def _try_other_backends(smt2):
         fn = f.name
     try:
         for name, cmd in (
+            ("z3-5.1-cli", ["z3-new", "-T:%d" % budget, fn]),
             ("cvc5", ["/usr/bin/cvc5", "--tlimit=%d" % (budget * 1000), fn]),
             ("z3-4.8", ["/usr/bin/z3", "-T:%d" % budget, fn]),
         ):
